@@ -42,7 +42,13 @@ func isHandledSelectStmt(l *lexer, keyspace Identifier) (handled bool, stmt Stat
 	}
 
 	qualifyingKeyspace, table, t, err := parseQualifiedIdentifier(l)
-	if err != nil || (!keyspace.equal("system") && !qualifyingKeyspace.equal("system")) || !isSystemTable(table) {
+	// An unqualified table name is resolved in the connection's current keyspace; a qualified one only
+	// in the keyspace it names.
+	inSystemKeyspace := qualifyingKeyspace.equal("system")
+	if qualifyingKeyspace.isEmpty() {
+		inSystemKeyspace = keyspace.equal("system")
+	}
+	if err != nil || !inSystemKeyspace || !isSystemTable(table) {
 		return false, nil, err
 	}
 
